@@ -64,6 +64,10 @@ CHECKS = {
    text="(a) Explicit-state exploration of honest session histories from the query on (one or both sides asking, texts with key rotation, SMP, extra symmetric key, End, fragmentation, all delivery interleavings): every emitted message is parsed by verifref — an independent implementation written from the specification with the standard library only — and re-derived from both sides' secrets, located in the randomness logs by verification (g^d, commitment hash): commit, D-H key, SSID, c/c', m1/m1', m2/m2', the decrypted signature block and its DSA signature, data-message key ids per the specification's ratchet, next D-H key, counters, session keys with the high/low-end rule, MAC, plaintext layout, extra symmetric key, and the whole data message rebuilt byte for byte. (b) A reference peer written from the specification talks to the real conversation in both exchange roles (texts, extra-key requests, End, fragments): everything either side builds must be accepted and read exactly by the other; SSID, fingerprint and extra keys agree.",
    tech="explicit-state model checking of the implementation against an independent reference implementation stepped in lock-step (wire re-derivation and reference peer)",
    note="verifref (ref/*.go) is trusted as the statement of the specification; it shares only the Go standard library with otr3 and does not cover the SMP proofs"),
+ "C20": dict(cat="model_checking", ref="§3 C20",
+   text="Threads are independent scripted conversation pairs (different versions and policies; handshake, texts with rotation, OTR error, SMP, fragmentation, extra key, End). All interleavings of their API calls are executed on the real code (2 threads with full scripts, thorough also 3 threads), states matched on positions and every thread's world. After every step every package-level variable of package otr3 (list generated from the working tree) is compared bit for bit — deep, slices to full capacity — with its value after init, every message handed out earlier is re-read, and the step's observable result is compared with the same step of the script run alone. Since conversations can only meet in package-level state, 'no step modifies it' implies that steps of different conversations commute. The same scripts also run free on 16 goroutines under the race detector (sampling; corroboration only).",
+   tech="exhaustive exploration of API-call interleavings of the implementation with a package-state immutability oracle; separate free-running race-detector pass",
+   note="the race-detector pass is dynamic sampling and only corroborates; writes to package state that are undone within one API call would escape the before/after comparison"),
 }
 NA_REASON = "check not built yet (work in progress; see DESIGN.md §3 for the planned bounded exploration)"
 def main():
